@@ -303,6 +303,11 @@ impl<'store> ResultItem<'store, Annotation> {
             }
         }
 
+        if outputted_to_main {
+            //the annotation-level properties are separated by commas, close the last one
+            ann_out.push(',');
+        }
+
         if config.auto_generated && !suppress_auto_generated {
             ann_out += &format!(" \"generated\": \"{}\",", Local::now().to_rfc3339());
         }
